@@ -10,18 +10,18 @@ CLAIMED = {
     "C05": ("proof", "selection theorem for all dotted-numeric release strings, agreement of reported version and active protocol as part of the invariant over all histories, type gate"),
     "C06": ("proof", "closed forms of the version-query wrapper (generic in the wrapped handler) and of each reaction; a listen step never parks anything (generic theorem)"),
     "C07": ("proof", "send and the wake step in closed form for every buffer content: parked until the wake, released once, only that node, last parked value; over whole histories a parked command stays parked through every operation that is not a wake signal of its node or a send for its key, and is written at the next fault-free wake"),
-    "C08": ("proof", "release loop and wake step in closed form for every fault stream: failure reported, delivered prefix removed, the rest stays, nothing twice"),
+    "C08": ("proof", "release loop and wake step in closed form for every fault stream: failure reported, delivered prefix removed, the rest stays (at gateway level: every parked command outside the delivered prefix is still parked unchanged after the wake), nothing twice"),
     "C09": ("proof", "PARTIAL: for every schedule of the flush/send race (small-step system whose scheduler may place sends at every step boundary) no update is lost, every write was sent, nothing is written twice; assumed: asyncio atomicity between suspension points, write is the only suspension point in the flush"),
     "C10": ("proof", "closed forms of the missing-node/child wrapper, the request logic and the marker clearing; for every listen step: no request or exactly one, only for a message of that node, only when none is outstanding, recorded iff the write succeeded; over whole histories no second request while one is outstanding; table facts on which handlers carry the wrapper"),
-    "C11": ("proof", "allocation step theorem for every registry and fault stream; registered ids only grow over all histories"),
-    "C12": ("proof", "trichotomy proved for every case but one; the remaining case (internal command, buffering allowed) proved refuted = known finding"),
+    "C11": ("proof", "allocation step theorem for every registry and fault stream; registered ids only grow over all histories; never handed out twice over whole histories (an id answered once is registered in every later state and differs from every id answered later)"),
+    "C12": ("proof", "trichotomy proved for every case but one; the remaining case (internal command, buffering allowed) proved refuted = known finding; a held command is delivered end to end (stays held over any history without a wake of its node or a replacing send, written at the next fault-free wake)"),
     "C13": ("proof", "round-trip theorem for every well-formed registry (all attributes, children, values, arbitrary integers and strings), legacy-layout theorem; the marshmallow field semantics of the model are tied to the library by ~6000 differential cases per run; JSON text layer assumed"),
     "C14": ("proof", "PARTIAL: in the model the read error is the only failure (by construction); proved: what is accepted, atomicity of a failing load, empty file; that no other exception class escapes the real load is decided by the differential run"),
     "C15": ("proof", "the property is proved REFUTED for save-in-place (known finding), its exact extent is a theorem (old / empty registry / read error / new per crash point) and the property is proved for write-temp-then-rename; crash points are enumerated on the real save through an intercepting file layer"),
-    "C16": ("proof", "PARTIAL: for every schedule of the two-task transition system (main task and saver, any interleaving at suspension points, cancellation of the owning task, re-entry of the same object) leaving the context ends with the saver finished, the file holding the final registry, one disconnect and the raised exception (never the saver's CancelledError); every session has its saver; asyncio task semantics are encoded assumptions; cadence on a virtual clock"),
+    "C16": ("proof", "PARTIAL: for every schedule of the two-task transition system (main task and saver, any interleaving at suspension points, cancellation of the owning task, re-entry of the same object) leaving the context ends with the saver finished, the file holding the final registry, one disconnect and the raised exception (never the saver's CancelledError); every session has its saver; built-in MQTT kind: at every fault position of connect (broker refuses, any subset of subscriptions fails) a failed connect leaves no receive task and has left the broker client context; asyncio task semantics are encoded assumptions; cadence on a virtual clock"),
     "C17": ("proof", "PARTIAL: for every chunking and read timing the completed reads are the first reads of the complete stream (theorem about the readuntil model), lines in order, over-long / incomplete / undecodable as read errors, writes are the concatenated UTF-8 (strict UTF-8 round trip proved); StreamReader itself is third-party and validated against the model on every run"),
-    "C18": ("proof", "PARTIAL: topic/line mapping theorems for every prefix and payload (publish form incl. the keyword arguments that reach the broker client, read back, echo decodes to the same message), subscriptions cover every command topic, FIFO and not-deaf theorems about the receive loop model; broker and aiomqtt replaced by a fake client"),
-    "C19": ("proof", "simulation theorems over whole histories: within a major line (two gateways equal but for reported version / active protocol give the same outcomes and writes operation by operation, for every oracle and fault stream; which pairs agree is computed on the generated tables; the exception 22 is necessary) and across 1.x -> 2.x (same, as long as the 1.x run raises no missing-node/child error, without gateway-ready and version reports; every 2.x chain is the 1.x chain under no-op layers, computed on the tables)"),
+    "C18": ("proof", "PARTIAL: topic/line mapping theorems for every prefix and payload (publish form incl. the keyword arguments that reach the broker client, read back, echo decodes to the same message), subscriptions cover every command topic, FIFO and not-deaf theorems about the receive loop model, and over the whole life of a client (every interleaving of connects, disconnects, deliveries and reads: reads return exactly what the receive loops accepted, in order, once, across reconnects); broker and aiomqtt replaced by a fake client"),
+    "C19": ("proof", "simulation theorems over whole histories: within a major line (two gateways equal but for reported version / active protocol give the same outcomes and writes operation by operation, for every oracle and fault stream; which pairs agree is computed on the generated tables; the exception 22 is necessary) and across 1.x -> 2.x (same, as long as the 1.x run raises no missing-node/child error, without gateway-ready and version reports; every 2.x chain is the 1.x chain under no-op layers, computed on the tables); the exception is confined to registered nodes (a heartbeat response from an unregistered node has one closed form under 2.0, 2.1 and 2.2)"),
 }
 NOT_YET = {}
 
